@@ -281,7 +281,7 @@ func (p *PacketOut) MarshalBinary() (data []byte, err error) {
 
 func (p *PacketOut) UnmarshalBinary(data []byte) error {
 	err := p.Header.UnmarshalBinary(data)
-	n := p.Header.Len()
+	n := int(p.Header.Len()) // an int: a 16-bit offset would wrap and the action loop would start over
 
 	p.BufferId = binary.BigEndian.Uint32(data[n:])
 	n += 4
@@ -292,7 +292,7 @@ func (p *PacketOut) UnmarshalBinary(data []byte) error {
 
 	n += 6 // for pad
 
-	end := n + p.ActionsLen
+	end := n + int(p.ActionsLen)
 	for n < end {
 		a, err := DecodeAction(data[n:])
 		if err != nil {
@@ -302,7 +302,7 @@ func (p *PacketOut) UnmarshalBinary(data []byte) error {
 			return errors.New("an action in the packet-out reports length 0")
 		}
 		p.Actions = append(p.Actions, a)
-		n += a.Len()
+		n += int(a.Len())
 	}
 
 	if p.Data == nil {
